@@ -277,6 +277,15 @@ func (x *Exec) loopEnv(st *State, fr *Frame, h *ssa.BasicBlock, lc *LoopContract
 	if rs, ok := x.rangeSliceOf(fr, h); ok {
 		vars["$rangeslice"] = rs
 	}
+	// source-level locals that denote a single SSA value (assigned once) are visible by their names
+	for name, val := range x.w.debugNames(fr.fn) {
+		if _, ok := vars[name]; ok {
+			continue
+		}
+		if v, ok := fr.vals[val]; ok {
+			vars[name] = v
+		}
+	}
 	// named SSA values visible by their names (t5 ...) for advanced invariants
 	if lc != nil {
 		for spec, src := range lc.Binds {
